@@ -39,6 +39,9 @@ MEMO_ATTRS = {"_ENUM_ID_MAP"}
 MEMO_FUNCS = {"_sections_by_name"}            # functools.cached_property memo on DecodedChk / RichChk
 LOGGER_NAMES = {"log", "_log", "_LOG", "LOG", "logger", "_logger", "logging"}
 ATOM_ANNOTATIONS = {"int", "str", "bytes", "bool", "float", "Decimal", "None"}
+# decorators whose effect on a function is known (anything else - a cache, a wrapper - is not read: fail closed)
+KNOWN_DECORATORS = {"property", "classmethod", "staticmethod", "abstractmethod", "abc.abstractmethod",
+                    "functools.cached_property", "cached_property", "overload", "typing.overload"}
 
 BUILTIN_ATOM = {"len", "isinstance", "issubclass", "int", "str", "bool", "float", "bytes", "repr", "hash", "id", "abs",
                 "sum", "round", "ord", "chr", "divmod", "pow", "hex", "bin", "any", "all", "callable", "hasattr",
@@ -162,6 +165,7 @@ class Library:
                     kind = "setter"
                 fid = f"{module[:-3].replace('/', '.')}:{cls + '.' if cls else ''}{node.name}"
                 f = Fn(fid, module, cls, node, kind)
+                f.bad_decorator = next((d for d in decs if d not in KNOWN_DECORATORS and not d.endswith(".setter")), None)
                 self.fns.append(f)
                 self.by_name.setdefault(node.name, []).append(f)
                 if kind == "property":
@@ -1168,6 +1172,9 @@ def translate(src: Path, root: Path = None):
         try:
             if f.name in MEMO_FUNCS:
                 raise Unsupported("memo property (excluded from the property: a cache, see MEMO_FUNCS)")
+            if getattr(f, "bad_decorator", None):
+                raise Unsupported(f"decorator @{f.bad_decorator}: what it wraps the function in is not read (a cache would hand "
+                                  f"the same object to every caller)")
             tr = Tr(lib, f)
             f.body = tr.run()
             f.nvars = len(tr.vars)
